@@ -14,6 +14,8 @@
 //	flavour  Gnosis / Shutter-service nodes: two validators per topic; the combined validator
 //	         must reject as soon as one of them does.
 //	env      envelope mutations (topic, version, foreign payload, garbage).
+//	producer key-shares messages made by the real producers (ConstructDecryptionKeyShares, the
+//	         flavour's messaging middleware), delivered to a second node; its keys message to a third.
 //	hist     histories of DecryptionKeyShareHandler.HandleMessage calls with the row order of
 //	         the unordered share SELECT permuted (C01 stream (b)).
 package main
@@ -66,12 +68,13 @@ type caseJ struct {
 	Msg     *g.Msg     `json:"msg,omitempty"`
 	Env     envSpec    `json:"env"`
 	Steps   []histStep `json:"steps,omitempty"`
+	Prod    *prodSpec  `json:"prod,omitempty"`
 	Outside bool       `json:"outside,omitempty"` // outside the property's quantifier: correspondence only
 	Origin  string     `json:"origin"`
 }
 
 func (c *caseJ) key() string {
-	return fmt.Sprintf("%s/%s/%s/%+v/%+v/%+v", c.Kind, c.Flavour, c.State.Name, c.Msg, c.Env, c.Steps)
+	return fmt.Sprintf("%s/%s/%s/%+v/%+v/%+v/%+v", c.Kind, c.Flavour, c.State.Name, c.Msg, c.Env, c.Steps, c.Prod)
 }
 
 // ---------------------------------------------------------------------------------------------
@@ -755,6 +758,7 @@ func (r *runner) forced(emit func(*caseJ)) {
 	}
 	r.forcedFlavour(emit)
 	r.forcedHist(emit)
+	r.forcedProducer(emit)
 }
 
 // flavourMsg builds a message that every validator of a Gnosis / service node accepts in the
@@ -1054,6 +1058,8 @@ func main() {
 			r.runFlavour(c)
 		case "hist":
 			r.runHist(c)
+		case "producer":
+			r.runProducer(c)
 		default:
 			panic("kind " + c.Kind)
 		}
